@@ -1074,6 +1074,10 @@ class PackBasedObjectStore(PackCapableObjectStore, PackedObjectContainer):
         """
         if self.contains_packed(sha) or self.contains_loose(sha):
             return True
+        # see get_raw: the object may just have moved from a loose file
+        # into a new pack
+        if self._update_pack_cache() and self.contains_packed(sha):
+            return True
         for alternate in self.alternates:
             if sha in alternate:
                 return True
@@ -1431,6 +1435,14 @@ class PackBasedObjectStore(PackCapableObjectStore, PackedObjectContainer):
         ret = self._get_loose_object(hexsha)
         if ret is not None:
             return ret.type_num, ret.as_raw_string()
+        # A concurrent repack may have moved the object from its loose file
+        # into a pack that appeared after the pack directory was scanned
+        # above: look again (git does the same, reprepare_packed_git()).
+        if self._update_pack_cache():
+            try:
+                return self._lookup_in_packs(lambda p: p.get_raw(sha))
+            except KeyError:
+                pass
         for alternate in self.alternates:
             try:
                 return alternate.get_raw(hexsha)
